@@ -218,6 +218,7 @@ void Runner::setup() {
   }
   hs.assign((size_t) (maxh + 1), HState());
   out.res.assign(plan.ops.size(), OpRes());
+  skipped.assign(plan.ops.size(), false);
   int nthreads = 1;
   for (auto &op : plan.ops) if (op.thread + 1 > nthreads) nthreads = op.thread + 1;
   octx.assign((size_t) nthreads, OpCtx());
@@ -249,7 +250,7 @@ void Runner::thread_main(int tid) {
 
 // ------------------------------------------------------------------ hooks (live monitors)
 void Runner::on_libcall(Thread *t, Kind k, bool child_side) {
-  if (t->op == opts.trace_op) {
+  if (t->op == opts.trace_op || opts.trace_op == -2) {
     CallSite cs;
     cs.op = t->op; cs.child = child_side; cs.kind = k; cs.nth = (int) t->ncalls[child_side ? 1 : 0][k];
     out.sites.push_back(cs);
